@@ -9,13 +9,15 @@ pub fn exec(db: &dyn IndexDatabase) -> HashMap<FileId, Vec<Diagnostic>> {
     let mut diagnostic_list = Vec::new();
 
     let source_root = db.source_root();
-    let parse = db.parse(source_root.root());
-    diagnostic_list.extend(parse.errors().iter().map(|err| {
-        Diagnostic::new(
-            FileRange::new(source_root.root(), err.range),
-            err.message.to_string(),
-        )
-    }));
+    // the root first, then the files it includes: each file reports its own syntax errors
+    let root = source_root.root();
+    let included_files = source_root.iter_files().filter(|file_id| *file_id != root);
+    for file_id in std::iter::once(root).chain(included_files) {
+        let parse = db.parse(file_id);
+        diagnostic_list.extend(parse.errors().iter().map(|err| {
+            Diagnostic::new(FileRange::new(file_id, err.range), err.message.to_string())
+        }));
+    }
 
     let index = db.index();
     diagnostic_list.extend(index.diagnostics().iter().cloned());
